@@ -108,6 +108,22 @@ impl BlockCursor {
             && final(self).pos() == (if old(self).pos() < old(self).ents().len() { old(self).pos() + 1 } else { old(self).pos() }),
     { unimplemented!() }
     #[verifier::external_body]
+    fn seek_to_first(&mut self) -> (r: Result<(), SError>)
+        requires old(self).wf(),
+        ensures r is Ok ==> final(self).wf() && final(self).ents() == old(self).ents() && final(self).pos() == -1,
+    { unimplemented!() }
+    #[verifier::external_body]
+    fn seek_to_last(&mut self) -> (r: Result<(), SError>)
+        requires old(self).wf(),
+        ensures r is Ok ==> final(self).wf() && final(self).ents() == old(self).ents() && final(self).pos() == final(self).ents().len(),
+    { unimplemented!() }
+    #[verifier::external_body]
+    fn prev(&mut self) -> (r: Result<(), SError>)
+        requires old(self).wf(),
+        ensures r is Ok ==> final(self).wf() && final(self).ents() == old(self).ents()
+            && final(self).pos() == (if old(self).pos() >= 0 { old(self).pos() - 1 } else { old(self).pos() }),
+    { unimplemented!() }
+    #[verifier::external_body]
     fn key(&self) -> (r: Option<KeyRef<'_>>)
         requires self.wf(),
         ensures
@@ -229,6 +245,12 @@ impl Block {
 
 
 // ---------------------------------------------------------------- Sst::load: the same kernel behind the bloom filter
+//@ extract sst/src/lib.rs | struct BlockMetadata
+//@ end
+//@ extract sst/src/lib.rs | struct FinalBlock
+//@ end
+//@ extract sst/src/lib.rs | struct SstMetadata
+//@ end
 #[verifier::external_body]
 struct SstCursor { _p: u8 }
 #[verifier::external_body]
@@ -236,7 +258,7 @@ struct Filter { _p: u8 }
 #[verifier::external_body]
 struct SstBody { _p: u8 }
 // only the field Sst::load touches; every other field of the real struct is behind `body`
-struct Sst { filter: Filter, body: SstBody }
+struct Sst { filter: Filter, final_block: FinalBlock, file_size: u64, body: SstBody }
 
 impl Filter {
     uninterp spec fn may_contain(&self, k: Seq<u8>) -> bool;
@@ -270,6 +292,22 @@ impl SstCursor {
         requires old(self).wf(),
         ensures r is Ok ==> final(self).wf() && final(self).ents() == old(self).ents()
             && final(self).pos() == (if old(self).pos() < old(self).ents().len() { old(self).pos() + 1 } else { old(self).pos() }),
+    { unimplemented!() }
+    #[verifier::external_body]
+    fn seek_to_first(&mut self) -> (r: Result<(), SError>)
+        requires old(self).wf(),
+        ensures r is Ok ==> final(self).wf() && final(self).ents() == old(self).ents() && final(self).pos() == -1,
+    { unimplemented!() }
+    #[verifier::external_body]
+    fn seek_to_last(&mut self) -> (r: Result<(), SError>)
+        requires old(self).wf(),
+        ensures r is Ok ==> final(self).wf() && final(self).ents() == old(self).ents() && final(self).pos() == final(self).ents().len(),
+    { unimplemented!() }
+    #[verifier::external_body]
+    fn prev(&mut self) -> (r: Result<(), SError>)
+        requires old(self).wf(),
+        ensures r is Ok ==> final(self).wf() && final(self).ents() == old(self).ents()
+            && final(self).pos() == (if old(self).pos() >= 0 { old(self).pos() - 1 } else { old(self).pos() }),
     { unimplemented!() }
     #[verifier::external_body]
     fn key(&self) -> (r: Option<KeyRef<'_>>)
@@ -330,6 +368,35 @@ impl Sst {
 //@ end
 }
 
-//@ min-verified 10
+// the key that stands for "no last key" in the metadata of an empty table
+// `MAX_KEY.to_vec()` (MAX_KEY = &[0xff; 11]; Verus takes no const of reference type)
+spec fn max_key() -> Seq<u8> { Seq::new(11, |i: int| 0xffu8) }
+#[verifier::external_body]
+fn max_key_vec() -> (r: Vec<u8>) ensures r@ == max_key() { unimplemented!() }
+#[verifier::external_body]
+fn vec_from(s: &[u8]) -> (r: Vec<u8>) ensures r@ == s@ { unimplemented!() }
+
+impl Sst {
+    // the metadata of a table: first and last key read through the cursor, the rest copied from the final block
+//@ extract sst/src/lib.rs | impl Sst<W> :: fn metadata
+//@ ret r
+//@ rewrite-re X7 `Vec::from\(kr\.key\)` => `vec_from(kr.key)`
+//@ rewrite X7 `MAX_KEY.to_vec()` => `max_key_vec()`
+//@ pre <<
+        sorted(self.ents()),
+//@ >>
+//@ post <<
+        r is Ok ==> ({
+            let m = r->Ok_0; let e = self.ents();
+            &&& (e.len() > 0 ==> m.first_key@ == e[0].key && m.last_key@ == e.last().key)
+            &&& (e.len() == 0 ==> m.first_key@.len() == 0 && m.last_key@ == max_key())
+            &&& m.setsum == self.final_block.setsum && m.smallest_timestamp == self.final_block.smallest_timestamp
+            &&& m.biggest_timestamp == self.final_block.biggest_timestamp && m.file_size == self.file_size
+        }),
+//@ >>
+//@ end
+}
+
+//@ min-verified 11
 } // verus!
 fn main() {}
